@@ -69,7 +69,7 @@ fn err_name<E: std::fmt::Debug>(e: &E) -> String {
 }
 
 /// Run `f` on another thread; `None` if it does not finish within `secs` (the thread is left behind).
-fn with_deadline<T: Send + 'static>(secs: u64, f: impl FnOnce() -> T + Send + 'static) -> Option<T> {
+pub fn with_deadline<T: Send + 'static>(secs: u64, f: impl FnOnce() -> T + Send + 'static) -> Option<T> {
     let (tx, rx) = std::sync::mpsc::channel();
     std::thread::spawn(move || {
         let r = guarded(f);
@@ -111,16 +111,21 @@ pub fn exec(req: &str) -> String {
         },
         "c12.sample" => {
             let script: Vec<u64> = parse_nat_list(t[6]);
-            let mut rng = ScriptRng { script, pos: 0 };
             let (s, p) = (f(t[2]), f(t[3]));
             let shift: u32 = t[5].parse().unwrap();
-            let v: i64 = match t[1] {
-                "geo" => i64::from(Geometric::new(p).unwrap().sample(&mut rng)),
-                "dg" => i64::from(DoubleGeometric::new(s, shift).unwrap().sample(&mut rng)),
-                "tdg" => i64::from(TruncatedDoubleGeometric::new(s, shift).unwrap().sample(&mut rng)),
-                k => panic!("harness: unknown sampler {k}"),
-            };
-            format!("{v} {}", rng.pos)
+            let kind = t[1].to_string();
+            // a sampler that never accepts (and does not consume the script) must not block the suite
+            with_deadline(10, move || {
+                let mut rng = ScriptRng { script, pos: 0 };
+                let v: i64 = match kind.as_str() {
+                    "geo" => i64::from(Geometric::new(p).unwrap().sample(&mut rng)),
+                    "dg" => i64::from(DoubleGeometric::new(s, shift).unwrap().sample(&mut rng)),
+                    "tdg" => i64::from(TruncatedDoubleGeometric::new(s, shift).unwrap().sample(&mut rng)),
+                    k => panic!("harness: unknown sampler {k}"),
+                };
+                format!("{v} {}", rng.pos)
+            })
+            .unwrap_or_else(|| "timeout".into())
         }
         _ => panic!("harness: unknown request {req}"),
     }
